@@ -186,7 +186,7 @@ def cond_facts(c, m):
         return f, t
     if i.op in ("zext", "trunc", "sext"):
         return cond_facts(i.ops[0], m)
-    if i.op == "phi" and i.ty == "i1":
+    if i.op == "phi" and i.ty in ("i1", "i8", "i32"):
         # a && b as clang leaves it: false from the block that tested a, b's value from the block that tested b.  On the true
         # edge b holds (what held at the end of the block that evaluated b is added by edge_states)
         live = [v for v, b_ in i.incoming if not (v.is_const_int() and v.uval == 0)]
@@ -341,6 +341,7 @@ class Cursor:
                 if k == (self.cur_arg, 0):
                     S.add(("src", i.name))
                     S.discard(("nocolon",))
+                    S.discard(("fresh",))       # the saved cursor points into the middle of a line
                     # a second read of the cursor cell with no store in between yields the same pointer: what is known about
                     # the cell's content (r + o) holds for the new name
                     for pv in [f for f in S if f[0] == "pval"]:
@@ -379,8 +380,18 @@ class Cursor:
                 if c.is_const_int() and c.uval != 0:
                     S.add(("chr", i.name))
                 if c.is_const_int() and c.uval == ord(":"):
+                    if check:
+                        ok = ("fresh",) in S
+                        self.findings.append(("H2.continuation", i, ok,
+                                              "the 'address:' prefix is looked for only at the start of a line (text handed in by the "
+                                              "caller, or just past a newline)" if ok else
+                                              "the 'address:' prefix is looked for on a path that continues from the saved cursor in the "
+                                              "middle of a line: the search runs over the rest of the text, so when a later line has an "
+                                              "address the remaining bytes of the current line are skipped"))
                     S.add(("no-nl",))           # the 'address:' prefix of this line has been looked for
                     self.colon_scans.add(i.name)
+                if c.is_const_int() and c.uval == 10:
+                    S.add(("fresh",))           # the search result is a newline: what follows it is the start of a line
             elif i.op == "call" and i.callee == "strncmp":
                 # reads from each operand until a difference, a NUL or n bytes: fine when it starts inside the string
                 for a in i.args[:2]:
@@ -447,6 +458,8 @@ class Cursor:
             andphi = and_phi_of(t.cond)
             for succ, facts, edge_true in ((t.succs[0], tf, True), (t.succs[1], ff, False)):
                 facts = list(facts)
+                if fl is not None:
+                    facts.append(("flagv", fl[0], edge_true == fl[1]))      # the flag's truth on this edge (until it is redefined)
                 if andphi is not None and edge_true and getattr(self, "_IN", None) is not None:
                     # the true edge of (a && b) is only reached through the block that evaluated b: what held at its end holds here
                     pb = self.fn.blocks[andphi]
@@ -463,9 +476,11 @@ class Cursor:
                 # a branch on a flag that is only ever set after such a search
                 if fl is not None and fl[1] == edge_true and ("impl", fl[0]) in S:
                     facts.append(("nocolon",))
-                st = close((S | set(facts)) - ({("no-nl",)} if ("isnl",) in facts else set()))
+                st = close((S | set(facts) | ({("fresh",)} if ("isnl",) in facts else set())) - ({("no-nl",)} if ("isnl",) in facts else set()))
                 # an edge that needs a pointer to be NULL and non-NULL at once is infeasible
                 if any(f[0] == "null" and ("nnp", f[1]) in st for f in st):
+                    continue
+                if any(f[0] == "flagv" and ("flagv", f[1], not f[2]) in st for f in st):
                     continue
                 # ... or a byte to be a newline and not a newline
                 if any(f[0] == "nlat" and ("notnl", f[1], f[2]) in st for f in st):
@@ -534,7 +549,7 @@ class Cursor:
         'came here over a newline' and 'came here from the caller with a possibly NULL s' are not merged)."""
         fn = self.fn
         NL = ("no-nl",)
-        st0 = close({("src", self.str_arg), NL})
+        st0 = close({("src", self.str_arg), NL, ("fresh",)})
         IN = {(fn.entry.name, True): st0}
         self._IN = IN
         work = [(fn.entry, True)]
